@@ -239,13 +239,7 @@ def random_cases(out, rnd, n):
             elif k == 'unack': g.unack()
             elif k in ('ackread', 'cmtimer', 'fire', 'dt_starttimer'): g.simple(k)
             elif k == 'pause': g.pause()
-            elif k == 'parent':
-                g.parent()
-                # Checkable::ProcessCheckResult reschedules actively checked problem children of a recovering parent to
-                # now + Random() % 60 (checkable-check.cpp:405-416), which CkFull.do_parent does not model; pin next_check
-                # explicitly on both sides so that a later 'fire' (IsLikelyToBeCheckedSoon) cannot differ by chance
-                if g.active and g.lines[-1].endswith('up=1'):
-                    g.nextcheck()
+            elif k == 'parent': g.parent()      # ckgen.Gen.parent pins next_check after a parent recovery (active objects)
             elif k == 'dt_add': g.dt_add()
             elif k == 'dt_remove': g.dt_remove()
             elif k == 'dt_cleanup': g.dt_cleanup()
